@@ -3,7 +3,7 @@ from props_common import COMMON_TRUSTED
 CONFIG = {
     "areas": ["ident", "b64", "limits", "vertable"],
     "lean": ["VProps.C17"],
-    "sources": ["VProps/C17.lean", "VProofs/Ident.lean", "VProofs/B64.lean", "VProofs/Limits.lean",
+    "sources": ["VProps/C17.lean", "VProofs/Ident.lean", "VProofs/IdentIP.lean", "VProofs/B64.lean", "VProofs/Limits.lean",
                 "VModel/Ident.lean", "VModel/B64.lean", "VModel/Limits.lean", "VModel/Vertable.lean"],
     "theorems": [
         "V.C17.userID_parts_concat",
@@ -15,6 +15,7 @@ CONFIG = {
         "V.C17.serverName_accept_iff_grammar_partial",
         "V.C17.userID_accept_iff_grammar_partial",
         "V.C17.roomID_accept_iff_grammar_partial",
+        "V.C17.parseIPv4_accept_iff_dottedQuad",
         "V.C17.serverName_accept_iff_grammar",
         "V.C17.userID_accept_iff_grammar",
         "V.C17.roomID_accept_iff_grammar",
